@@ -125,6 +125,11 @@ FUEL = 40
 MODEL_PID = "99999989"
 
 
+def gen(ctx=None):
+    """regenerates Gen/ShellRegexes.v from the regex literals of the current source (write-if-changed)"""
+    X.gen(ctx)
+
+
 def run(ctx, res):
     rng = ctx.rng
     known = {k["class"]: k for k in C.known_findings("C10")}
